@@ -543,12 +543,20 @@ class EvalFunc:
 
                     return pyscript_service_handler
 
-                for srv_name in dec_args if dec_args else [f"{DOMAIN}.{func_name}"]:
+                srv_names = dec_args if dec_args else [f"{DOMAIN}.{func_name}"]
+                for srv_name in srv_names:
                     if type(srv_name) is not str or srv_name.count(".") != 1:
                         raise ValueError(f"{exc_mesg}: @service argument must be a string with one period")
                     domain, name = srv_name.split(".", 1)
                     if name in (SERVICE_RELOAD, SERVICE_JUPYTER_KERNEL_START):
                         raise SyntaxError(f"{exc_mesg}: @service conflicts with builtin service")
+                    owner = Function.service2global_ctx.get(srv_name, trig_ctx_name)
+                    if owner != trig_ctx_name:
+                        raise ValueError(
+                            f"{trig_ctx_name}: can't register service {srv_name}; already defined in {owner}"
+                        )
+                for srv_name in srv_names:
+                    domain, name = srv_name.split(".", 1)
                     if srv_name in self.trigger_service:
                         continue
                     Function.service_register(
